@@ -9,8 +9,10 @@ MASKED_BACKENDS = ["asm", "c64", "c32"]
 
 def cfgs(tier):
     if tier == "quick":
-        return [Cfg(b, *t) for b in MASKED_BACKENDS for t in ((4, 2, 4), (3, 3, 3), (2, 1, 2), (4, 4, 4))]
-    return [Cfg(b, *t) for b in MASKED_BACKENDS for t in share_tuples()]
+        # the 64-bit C masked code is also what builds with the direct-XOR / generic plain backends use: those builds see other
+        # preprocessor symbols, so they are configurations of their own
+        return [Cfg(b, *t) for b in MASKED_BACKENDS for t in ((4, 2, 4), (3, 3, 3), (2, 1, 2), (4, 4, 4))] + [Cfg("dxor", 3, 3, 3), Cfg("dxor", 4, 2, 4), Cfg("generic", 4, 4, 4)]
+    return [Cfg(b, *t) for b in MASKED_BACKENDS + ["dxor"] for t in share_tuples()] + [Cfg("generic", 4, 2, 4), Cfg("generic", 3, 3, 3)]
 
 
 def finding_key(sub, case, msg, cfg):
